@@ -377,6 +377,9 @@ def singularityCheck(
     """
     inclined = isInclined(inc)
     eccentric = isEccentric(ecc)
+    if not inclined and inc > 0.5 * PI:
+        # Retrograde equatorial: the node angle counts the other way round in the orbit plane
+        raan = -raan
     if inclined and eccentric:
         return wrapAngle2Pi(raan), wrapAngle2Pi(argp), wrapAngle2Pi(anomaly)
 
